@@ -5,6 +5,7 @@ import (
 	"encoding/json"
 	"errors"
 	"math/rand"
+	"os"
 	"sort"
 	"strings"
 
@@ -26,12 +27,18 @@ import (
 //
 // JSON and renderings: see lean/Acme/Driver/Import.lean.  Every line is stateless.
 //
-// A message in which a multiplexor is nested into another one is outside the model: both
-// sides answer `err unsupported` from the same static test (impNestedRequested).
+// Nested multiplexors (a multiplexor with an extended entry of its own) are part of the model:
+// a child that is a multiplexer is rendered with its own body in braces, at any depth; trees for
+// `imp export` may carry `"sub":{gc,gs,ch}` children.  The messages of the fixture
+// /repo/testdata/expected.dbc (which holds a nested multiplexor) are corpus cases (Exhaustive).
+// Lines that import the output of a real export are only generated up to 12 signals: the Go sort
+// of the signals is stable only up to 12 elements, the model sorts stably.
 //
 // Oracle findings (Go side only, property C11): after `imp export`, the exported text is
 // imported again and the structure is compared with the built one —
-// "c11-msg:<class>" where class names what changed: reimport-refused:<cause> (D54, D76),
+// "c11-msg:<class>" where class names what changed: reimport-refused:<cause> (D54, D76; for nested
+// multiplexers `precede` when the nested multiplexor's written start bit is smaller than its
+// parent's — big endian only — and `groupSizeZero` when it is then the parent's only child),
 // group-size (the multiplexer's SIZE changes when no child ends at the last bit of the group),
 // top, children.  Two further classes are NOT violations of C11 (which speaks of the selector
 // WIDTH and of group MEMBERSHIP): group-count (a group count that is not a power of two comes back
@@ -85,10 +92,17 @@ type jDMsg struct {
 }
 
 type jChild struct {
-	N string `json:"n"`
-	R int    `json:"r"`
-	Z int    `json:"z"`
-	G []int  `json:"g"`
+	N   string `json:"n"`
+	R   int    `json:"r"`
+	Z   int    `json:"z"`
+	G   []int  `json:"g"`
+	Sub *jSub  `json:"sub,omitempty"` // the child is a multiplexer
+}
+
+type jSub struct {
+	GC int      `json:"gc"`
+	GS int      `json:"gs"`
+	Ch []jChild `json:"ch"`
 }
 
 type jItem struct {
@@ -122,22 +136,42 @@ func impCanonMsg(m *jDMsg) {
 	}
 }
 
+func impCanonKids(ch []jChild) []jChild {
+	if ch == nil {
+		ch = []jChild{}
+	}
+	for k := range ch {
+		if ch[k].G == nil {
+			ch[k].G = []int{}
+		}
+		if ch[k].Sub != nil {
+			ch[k].Sub.Ch = impCanonKids(ch[k].Sub.Ch)
+		}
+	}
+	return ch
+}
+
 func impCanonTree(t *jTree) {
 	if t.Top == nil {
 		t.Top = []jItem{}
 	}
 	for i := range t.Top {
 		if t.Top[i].T == "m" {
-			if t.Top[i].Ch == nil {
-				t.Top[i].Ch = []jChild{}
-			}
-			for k := range t.Top[i].Ch {
-				if t.Top[i].Ch[k].G == nil {
-					t.Top[i].Ch[k].G = []int{}
-				}
-			}
+			t.Top[i].Ch = impCanonKids(t.Top[i].Ch)
 		}
 	}
+}
+
+func impEncKids(chs []jChild) string {
+	var ch []string
+	for _, c := range chs {
+		if c.Sub != nil {
+			ch = append(ch, sprintf(`{"n":%q,"r":%d,"g":%s,"sub":{"gc":%d,"gs":%d,"ch":%s}}`, c.N, c.R, mxInts(c.G), c.Sub.GC, c.Sub.GS, impEncKids(c.Sub.Ch)))
+			continue
+		}
+		ch = append(ch, sprintf(`{"n":%q,"r":%d,"z":%d,"g":%s}`, c.N, c.R, c.Z, mxInts(c.G)))
+	}
+	return listStr(ch)
 }
 
 // the Lean side reads every key: no omitempty on the wire
@@ -149,11 +183,7 @@ func impEncTree(t *jTree) string {
 			items = append(items, sprintf(`{"t":"s","n":%q,"s":%d,"z":%d}`, it.N, it.S, it.Z))
 			continue
 		}
-		var ch []string
-		for _, c := range it.Ch {
-			ch = append(ch, sprintf(`{"n":%q,"r":%d,"z":%d,"g":%s}`, c.N, c.R, c.Z, mxInts(c.G)))
-		}
-		items = append(items, sprintf(`{"t":"m","n":%q,"s":%d,"gc":%d,"gs":%d,"ch":%s}`, it.N, it.S, it.GC, it.GS, listStr(ch)))
+		items = append(items, sprintf(`{"t":"m","n":%q,"s":%d,"gc":%d,"gs":%d,"ch":%s}`, it.N, it.S, it.GC, it.GS, impEncKids(it.Ch)))
 	}
 	return sprintf(`{"id":%d,"size":%d,"be":%d,"top":%s}`, t.ID, t.Size, t.BE, listStr(items))
 }
@@ -284,31 +314,6 @@ func impFindExt(m *jDMsg, name string) *jDExt {
 	return res
 }
 
-// the static test shared with the model (Acme.Import.nestedRequested)
-func impNestedRequested(m *jDMsg) bool {
-	var muxes []jDSig
-	for _, s := range impSortedSigs(m) {
-		if s.Mr != 0 {
-			muxes = append(muxes, s)
-		}
-	}
-	if len(muxes) < 2 {
-		return false
-	}
-	idx := map[string]int{}
-	for i, x := range muxes {
-		idx[x.N] = i
-	}
-	for j, x := range muxes {
-		if e := impFindExt(m, x.N); e != nil {
-			if i, ok := idx[e.X]; ok && i < j {
-				return true
-			}
-		}
-	}
-	return false
-}
-
 type impChildV struct {
 	name      string
 	rel, abs  int
@@ -318,6 +323,7 @@ type impChildV struct {
 	hasIDs    bool
 	inGroups  []int
 	nestedMux bool
+	sub       *acmelib.MultiplexerSignal
 }
 
 func impChildren(mux *acmelib.MultiplexerSignal) []impChildV {
@@ -330,6 +336,9 @@ func impChildren(mux *acmelib.MultiplexerSignal) []impChildV {
 		sig := it.Value().Interface().(acmelib.Signal)
 		c := impChildV{name: sig.Name(), rel: sig.GetRelativeStartPos(), abs: sig.GetStartBit(), size: sig.GetSize(),
 			nestedMux: sig.Kind() == acmelib.SignalKindMultiplexer}
+		if c.nestedMux {
+			c.sub, _ = sig.ToMultiplexer()
+		}
 		if fixed.MapIndex(it.Key()).IsValid() {
 			c.fixed = true
 		}
@@ -369,6 +378,28 @@ func impIdsStr(c impChildV) string {
 	return "?"
 }
 
+// impBody renders a multiplexer: w, gc, gs, the registry of its children (a child that is a
+// multiplexer carries its own body in braces) and the groups
+func impBody(mux *acmelib.MultiplexerSignal) string {
+	var ch []string
+	for _, c := range impChildren(mux) {
+		line := sprintf("%s@%d/%d+%d:%s", c.name, c.rel, c.abs, c.size, impIdsStr(c))
+		if c.nestedMux {
+			line += "{" + impBody(c.sub) + "}"
+		}
+		ch = append(ch, line)
+	}
+	var gs []string
+	for _, g := range mux.GetSignalGroups() {
+		var ns []string
+		for _, x := range g {
+			ns = append(ns, x.Name())
+		}
+		gs = append(gs, listStr(ns))
+	}
+	return sprintf("w=%d,gc=%d,gs=%d,ch=%s,g=%s", mux.GetGroupCountSize(), mux.GroupCount(), mux.GroupSize(), listStr(ch), listStr(gs))
+}
+
 func impRenderMsg(msg *acmelib.Message) string {
 	var items []string
 	for _, sig := range msg.Signals() {
@@ -380,20 +411,7 @@ func impRenderMsg(msg *acmelib.Message) string {
 		if err != nil {
 			return "err tomux"
 		}
-		var ch []string
-		for _, c := range impChildren(mux) {
-			ch = append(ch, sprintf("%s@%d/%d+%d:%s", c.name, c.rel, c.abs, c.size, impIdsStr(c)))
-		}
-		var gs []string
-		for _, g := range mux.GetSignalGroups() {
-			var ns []string
-			for _, x := range g {
-				ns = append(ns, x.Name())
-			}
-			gs = append(gs, listStr(ns))
-		}
-		items = append(items, sprintf("M:%s@%d+%d(w=%d,gc=%d,gs=%d,ch=%s,g=%s)", mux.Name(), mux.GetStartBit(), mux.GetSize(),
-			mux.GetGroupCountSize(), mux.GroupCount(), mux.GroupSize(), listStr(ch), listStr(gs)))
+		items = append(items, sprintf("M:%s@%d+%d(%s)", mux.Name(), mux.GetStartBit(), mux.GetSize(), impBody(mux)))
 	}
 	be := 0
 	if msg.ByteOrder() == acmelib.MessageByteOrderBigEndian {
@@ -413,9 +431,6 @@ func impTheMsg(bus *acmelib.Bus) *acmelib.Message {
 
 // impImport runs the real importer; out is the line answer
 func impImport(m *jDMsg) (out string, msg *acmelib.Message) {
-	if impNestedRequested(m) {
-		return "err unsupported", nil
-	}
 	bus, err := acmelib.ImportDBCFile("imp", strings.NewReader(impText(m)))
 	if err != nil {
 		return "err " + impCause(err), nil
@@ -469,27 +484,47 @@ func impBuild(t *jTree) (bus *acmelib.Bus, msg *acmelib.Message, cause string) {
 			}
 			continue
 		}
-		mux, err := acmelib.NewMultiplexerSignal(it.N, it.GC, it.GS)
-		if err != nil {
-			return nil, nil, impCause(err)
-		}
-		for _, c := range it.Ch {
-			if c.Z <= 0 {
-				return nil, nil, "sizeZero"
-			}
-			sig, err := impLeaf(c.N, c.Z)
-			if err != nil {
-				return nil, nil, impCause(err)
-			}
-			if err := mux.InsertSignal(sig, c.R, c.G...); err != nil {
-				return nil, nil, impCause(err)
-			}
+		mux, cause := impBuildMux(it.N, it.GC, it.GS, it.Ch)
+		if cause != "" {
+			return nil, nil, cause
 		}
 		if err := msg.InsertSignal(mux, it.S); err != nil {
 			return nil, nil, impCause(err)
 		}
 	}
 	return bus, msg, ""
+}
+
+// impBuildMux: NewMultiplexerSignal, then the children in call order; a child that is a
+// multiplexer is completed before it is inserted
+func impBuildMux(name string, gc, gs int, chs []jChild) (*acmelib.MultiplexerSignal, string) {
+	mux, err := acmelib.NewMultiplexerSignal(name, gc, gs)
+	if err != nil {
+		return nil, impCause(err)
+	}
+	for _, c := range chs {
+		var sig acmelib.Signal
+		if c.Sub != nil {
+			sub, cause := impBuildMux(c.N, c.Sub.GC, c.Sub.GS, c.Sub.Ch)
+			if cause != "" {
+				return nil, cause
+			}
+			sig = sub
+		} else {
+			if c.Z <= 0 {
+				return nil, "sizeZero"
+			}
+			leaf, err := impLeaf(c.N, c.Z)
+			if err != nil {
+				return nil, impCause(err)
+			}
+			sig = leaf
+		}
+		if err := mux.InsertSignal(sig, c.R, c.G...); err != nil {
+			return nil, impCause(err)
+		}
+	}
+	return mux, ""
 }
 
 func impRenderDMsg(m *jDMsg) string {
@@ -637,9 +672,18 @@ func (e *impExec) oracleC10(line string, m *jDMsg, msg *acmelib.Message) {
 		if sig.Kind() == acmelib.SignalKindMultiplexer {
 			mux, _ := sig.ToMultiplexer()
 			add(sig.Name(), sig.GetStartBit(), mux.GetGroupCountSize())
-			for _, c := range impChildren(mux) {
-				add(c.name, c.abs, c.size)
+			var walk func(m *acmelib.MultiplexerSignal)
+			walk = func(m *acmelib.MultiplexerSignal) {
+				for _, c := range impChildren(m) {
+					if c.nestedMux {
+						add(c.name, c.abs, c.sub.GetGroupCountSize())
+						walk(c.sub)
+					} else {
+						add(c.name, c.abs, c.size)
+					}
+				}
 			}
+			walk(mux)
 			continue
 		}
 		add(sig.Name(), sig.GetStartBit(), sig.GetSize())
@@ -692,58 +736,73 @@ func (e *impExec) oracleC11(line string, msg *acmelib.Message, text string) stri
 	if a == b {
 		return ""
 	}
-	// classify
-	alsoSize := false
-	class := "children"
+	// classify (at every depth)
+	classes := map[string]bool{}
 	s1, s2 := msg.Signals(), msg2.Signals()
 	if len(s1) != len(s2) {
-		class = "top"
+		classes["top"] = true
 	} else {
 		for i := range s1 {
 			if s1[i].Kind() != s2[i].Kind() || s1[i].Name() != s2[i].Name() || s1[i].GetStartBit() != s2[i].GetStartBit() {
-				class = "top"
-				break
+				classes["top"] = true
+				continue
 			}
 			if s1[i].Kind() == acmelib.SignalKindMultiplexer {
 				m1, _ := s1[i].ToMultiplexer()
 				m2, _ := s2[i].ToMultiplexer()
-				switch {
-				case m1.GroupCount() != m2.GroupCount():
-					class = "group-count"
-					if m1.GroupSize() != m2.GroupSize() {
-						alsoSize = true
-					}
-				case m1.GroupSize() != m2.GroupSize():
-					class = "group-size"
-				default:
-					c1, c2 := impChildren(m1), impChildren(m2)
-					if len(c1) == len(c2) {
-						onlyFixed := true
-						for k := range c1 {
-							x, y := c1[k], c2[k]
-							if x.name != y.name || x.rel != y.rel || x.size != y.size || !sameInts(x.inGroups, y.inGroups) {
-								onlyFixed = false
-							}
-						}
-						if onlyFixed {
-							class = "fixed"
-						}
-					}
-				}
-				if class != "children" {
-					break
-				}
+				impMuxDiff(m1, m2, classes)
+			} else if s1[i].GetSize() != s2[i].GetSize() {
+				classes["top"] = true
 			}
 		}
 	}
-	if alsoSize {
-		e.find("C11", "c11-msg:group-size", line+" :: "+a+" :: "+b)
+	for _, c := range []string{"top", "children", "group-size"} {
+		if classes[c] {
+			e.find("C11", "c11-msg:"+c, line+" :: "+a+" :: "+b)
+		}
 	}
-	if class == "group-count" || class == "fixed" {
-		return class
+	var notes []string
+	for _, c := range []string{"group-count", "fixed"} {
+		if classes[c] {
+			notes = append(notes, c)
+		}
 	}
-	e.find("C11", "c11-msg:"+class, line+" :: "+a+" :: "+b)
-	return ""
+	if len(classes) == 0 {
+		e.find("C11", "c11-msg:children", line+" :: "+a+" :: "+b)
+	}
+	return strings.Join(notes, "+")
+}
+
+// impMuxDiff names what differs between a multiplexer and its re-imported image, at every depth:
+// group-count, group-size, fixed (listed for every group ↔ fixed), children (anything else)
+func impMuxDiff(m1, m2 *acmelib.MultiplexerSignal, classes map[string]bool) {
+	if m1.GroupCount() != m2.GroupCount() {
+		classes["group-count"] = true
+	}
+	if m1.GroupSize() != m2.GroupSize() {
+		classes["group-size"] = true
+	}
+	c1, c2 := impChildren(m1), impChildren(m2)
+	if len(c1) != len(c2) {
+		classes["children"] = true
+		return
+	}
+	for k := range c1 {
+		x, y := c1[k], c2[k]
+		switch {
+		case x.name != y.name || x.rel != y.rel || x.nestedMux != y.nestedMux || !sameInts(x.inGroups, y.inGroups):
+			classes["children"] = true
+		case x.nestedMux:
+			impMuxDiff(x.sub, y.sub, classes)
+			if x.fixed != y.fixed {
+				classes["fixed"] = true
+			}
+		case x.size != y.size:
+			classes["children"] = true
+		case x.fixed != y.fixed || !sameInts(x.ids, y.ids):
+			classes["fixed"] = true
+		}
+	}
 }
 
 // ---- generation ------------------------------------------------------------------------------
@@ -782,8 +841,22 @@ func impRangesOf(ids []int) [][2]uint32 {
 
 // impGenMuxRegion fills [from, from+w+gs) with a selector and children; returns the signals
 func impGenMuxRegion(r *rand.Rand, name string, from, w, gs int, needExt bool, seq *int) []impGenSig {
+	return impGenMuxTree(r, name, from, w, gs, needExt, seq, "", nil, 0, 0)
+}
+
+// impGenMuxTree: as impGenMuxRegion; the multiplexor is itself multiplexed by `parent` (for the
+// groups `parentRanges`) when parent != "", and may hold nested multiplexors down to `depth`
+func impGenMuxTree(r *rand.Rand, name string, from, w, gs int, needExt bool, seq *int, parent string, parentRanges [][2]uint32, parentK, depth int) []impGenSig {
 	gc := 1 << w
-	res := []impGenSig{{name: name, pos: from, size: w, mr: true}}
+	head := impGenSig{name: name, pos: from, size: w, mr: true}
+	if parent != "" {
+		head.md = true
+		head.k = parentK
+		head.ext = parentRanges
+		head.extMuxor = parent
+	}
+	res := []impGenSig{head}
+	nestedPlaced := false
 	base := from + w
 	col := 0
 	lastEnd := 0
@@ -794,6 +867,21 @@ func impGenMuxRegion(r *rand.Rand, name string, from, w, gs int, needExt bool, s
 		}
 		kind := r.Intn(6)
 		switch {
+		case depth > 0 && !nestedPlaced && cw >= 3 && r.Intn(2) == 0: // a nested multiplexor in some groups
+			nestedPlaced = true
+			perm := r.Perm(gc)
+			n := 1 + r.Intn(gc)
+			if r.Intn(2) == 0 {
+				n = 1
+			}
+			ids := append([]int{}, perm[:n]...)
+			sort.Ints(ids)
+			w1 := 1
+			if cw >= 6 && r.Intn(2) == 0 {
+				w1 = 2
+			}
+			*seq++
+			res = append(res, impGenMuxTree(r, sprintf("n%d", *seq), base+col, w1, cw-w1, true, seq, name, impRangesOf(ids), ids[r.Intn(len(ids))], depth-1)...)
 		case kind == 0: // a gap
 		case kind == 1: // fixed child
 			*seq++
@@ -852,7 +940,7 @@ func impGenGood(r *rand.Rand) *jDMsg {
 	size := pick(r, 8, 8, 8, 8, 4, 2, 1, 3, 6)
 	bits := size * 8
 	be := r.Intn(2) == 0
-	mode := pick(r, 0, 0, 1, 1, 1, 1, 1, 2, 2)
+	mode := pick(r, 0, 0, 1, 1, 1, 1, 1, 2, 2, 3, 3)
 	var sigs []impGenSig
 	seq := 0
 	plain := func(from, to int) {
@@ -905,6 +993,21 @@ func impGenGood(r *rand.Rand) *jDMsg {
 			p := pre + w + r.Intn(gs-1)
 			sigs = append(sigs, impGenSig{name: sprintf("d%d", seq), pos: p, size: 1 + r.Intn(2)})
 		}
+		plain(pre+w+gs, bits)
+	case 3: // nested multiplexors (depth 2, sometimes 3)
+		w := pick(r, 1, 1, 2)
+		pre := 0
+		if r.Intn(3) == 0 {
+			pre = r.Intn(8)
+		}
+		plain(0, pre)
+		room := bits - pre - w
+		if room < 4 {
+			plain(pre, bits)
+			break
+		}
+		gs := room - r.Intn(1+room/3)
+		sigs = append(sigs, impGenMuxTree(r, "mx", pre, w, gs, true, &seq, "", nil, 0, pick(r, 1, 1, 2))...)
 		plain(pre+w+gs, bits)
 	case 2:
 		n := 2 + r.Intn(2)
@@ -1120,6 +1223,34 @@ func impGenDMsg(r *rand.Rand) *jDMsg {
 	return m
 }
 
+// impNestify turns a leaf child of z bits into a multiplexer of the same total size
+func impNestify(r *rand.Rand, c *jChild, depth int, seq *int) {
+	w, gc := 1, 2
+	if c.Z >= 5 && r.Intn(2) == 0 {
+		w, gc = 2, pick(r, 3, 4)
+	}
+	gs := c.Z - w
+	sub := &jSub{GC: gc, GS: gs}
+	col := 0
+	for col < gs && len(sub.Ch) < 4 {
+		cw := 1 + r.Intn(gs-col)
+		if r.Intn(4) != 0 {
+			*seq++
+			g := []int{}
+			if r.Intn(3) != 0 {
+				g = []int{r.Intn(gc)}
+			}
+			k := jChild{N: sprintf("k%d", *seq), R: col, Z: cw, G: g}
+			if depth > 1 && cw >= 3 && r.Intn(2) == 0 {
+				impNestify(r, &k, depth-1, seq)
+			}
+			sub.Ch = append(sub.Ch, k)
+		}
+		col += cw
+	}
+	c.Sub = sub
+}
+
 // impGenTree: a message to be built through the API
 func impGenTree(r *rand.Rand) *jTree {
 	size := pick(r, 8, 8, 8, 4, 2, 6)
@@ -1204,6 +1335,13 @@ func impGenTree(r *rand.Rand) *jTree {
 				it.GS = maxEnd
 				gs = maxEnd
 			}
+			if r.Intn(4) == 0 { // some children become multiplexers themselves
+				for k := range it.Ch {
+					if it.Ch[k].Z >= 3 && r.Intn(2) == 0 {
+						impNestify(r, &it.Ch[k], 1+r.Intn(2), &seq)
+					}
+				}
+			}
 			r.Shuffle(len(it.Ch), func(a, b int) { it.Ch[a], it.Ch[b] = it.Ch[b], it.Ch[a] })
 			t.Top = append(t.Top, it)
 			p += w + gs
@@ -1278,7 +1416,7 @@ func (impStream) Gen(r *rand.Rand, tier string, idx int) []string {
 			t := impGenTree(r)
 			sc = append(sc, "imp export "+impEncTree(t))
 			// the exported message read again: the model of the importer on the output of the real exporter
-			if _, _, dm, _ := impExport(t); dm != nil && !impTooWide(dm) {
+			if _, _, dm, _ := impExport(t); dm != nil && !impTooWide(dm) && len(dm.Sigs) <= 12 {
 				sc = append(sc, "imp import "+impEncMsg(dm))
 			}
 			continue
@@ -1293,6 +1431,18 @@ func (impStream) Gen(r *rand.Rand, tier string, idx int) []string {
 		}
 	}
 	return sc
+}
+
+func impKidsOf(mux *acmelib.MultiplexerSignal) []jChild {
+	var res []jChild
+	for _, c := range impChildren(mux) {
+		jc := jChild{N: c.name, R: c.rel, Z: c.size, G: append([]int{}, c.ids...)}
+		if c.nestedMux {
+			jc.Sub = &jSub{GC: c.sub.GroupCount(), GS: c.sub.GroupSize(), Ch: impKidsOf(c.sub)}
+		}
+		res = append(res, jc)
+	}
+	return res
 }
 
 // impTreeOf reads an imported message back into the API-call form
@@ -1310,21 +1460,39 @@ func impTreeOf(msg *acmelib.Message) *jTree {
 		if err != nil {
 			return nil
 		}
-		it := jItem{T: "m", N: mux.Name(), S: mux.GetStartBit(), GC: mux.GroupCount(), GS: mux.GroupSize()}
-		for _, c := range impChildren(mux) {
-			if c.nestedMux {
-				return nil
-			}
-			it.Ch = append(it.Ch, jChild{N: c.name, R: c.rel, Z: c.size, G: append([]int{}, c.ids...)})
-		}
+		it := jItem{T: "m", N: mux.Name(), S: mux.GetStartBit(), GC: mux.GroupCount(), GS: mux.GroupSize(), Ch: impKidsOf(mux)}
 		t.Top = append(t.Top, it)
 	}
 	impCanonTree(t)
 	return t
 }
 
+// the messages of the fixture /repo/testdata/expected.dbc (it holds nested multiplexors)
+func impFixtureLines() []string {
+	b, err := os.ReadFile("/repo/testdata/expected.dbc")
+	if err != nil {
+		return nil
+	}
+	f, err := dbc.Parse("expected.dbc", bytes.NewReader(b), false)
+	if err != nil {
+		return nil
+	}
+	var sc []string
+	for _, dm := range f.Messages {
+		m := impDMsgOf(f, dm.ID)
+		if impTooWide(m) {
+			continue
+		}
+		sc = append(sc, "imp import "+impEncMsg(m))
+	}
+	return sc
+}
+
 func (impStream) Exhaustive(tier string) [][]string {
 	var res [][]string
+	if sc := impFixtureLines(); len(sc) > 0 {
+		res = append(res, sc)
+	}
 	// one multiplexor of 1 bit at 0, one multiplexed signal of 2 bits and one plain signal of 2 bits
 	// at every pair of positions of a 2-byte message, both byte orders
 	for be := 0; be < 2; be++ {
@@ -1365,6 +1533,23 @@ func (impStream) Exhaustive(tier string) [][]string {
 	return res
 }
 
+// nesting depth of a rendering (1 = a multiplexer without nested multiplexers)
+func impDepth(o string) int {
+	d, max := 0, 0
+	for _, c := range o {
+		switch c {
+		case '(', '{':
+			d++
+			if d > max {
+				max = d
+			}
+		case ')', '}':
+			d--
+		}
+	}
+	return max
+}
+
 func (impStream) Tag(lines, outs []string) (bool, []string) {
 	var tags []string
 	for i, l := range lines {
@@ -1388,17 +1573,25 @@ func (impStream) Tag(lines, outs []string) (bool, []string) {
 				if strings.Contains(o, ":F") {
 					tags = append(tags, "import:ok:fixed")
 				}
+				if d := impDepth(o); d >= 2 {
+					tags = append(tags, sprintf("import:ok:nested-depth-%d", d))
+				}
 				if strings.Contains(o, " be=1 ") {
 					tags = append(tags, "import:ok:be")
 				}
 			} else {
+				if strings.Contains(l, `"sub":`) {
+					tags = append(tags, "export:ok:nested")
+				}
 				if strings.Contains(o, "ext=[]") {
 					tags = append(tags, "export:ok:noext")
 				} else {
 					tags = append(tags, "export:ok:ext")
 				}
 				if i := strings.Index(o, " ##c11:"); i >= 0 {
-					tags = append(tags, "export:c11:"+o[i+len(" ##c11:"):])
+					for _, c := range strings.Split(o[i+len(" ##c11:"):], "+") {
+						tags = append(tags, "export:c11:"+c)
+					}
 				}
 			}
 		case strings.HasPrefix(o, "err "):
